@@ -8,7 +8,7 @@ from ..cfg import NORMAL, Node
 from ..core import Ctx
 from ..flow import ALL, find_path, names_in
 from ..model import AnalysisError, FunctionInfo, dotted, norm_text
-from .common import UNKNOWN, walk_all, concrete_eval, eval3, edge_target, explore, kwarg, reachable_from
+from .common import UNKNOWN, walk_all, resolve_value, concrete_eval, eval3, edge_target, explore, kwarg, reachable_from
 
 EXPLANATION = (
     "Static analysis of the metadata mutators: (R1) sibling agreement of the three snapshot-removal sites (expire mutator, "
@@ -316,7 +316,9 @@ def r3(ctx: Ctx) -> None:
     g = ctx.cfg(f)
     brs = [b for b in g.nodes if b.kind == "branch" and "ENTRY_STATUS_ADDED" in b.text and "status" in b.text]
     if not brs:
-        raise AnalysisError("status branch vanished from create_manifest_file")
+        _r3_rows(ctx, f)
+        _r3_reader(ctx, f, 3)
+        return
     b = brs[0]
     t_added, t_exist = edge_target(g, b, "true"), edge_target(g, b, "false")
     join_stop = [n.id for n in g.nodes if n.kind == "branch" and n.id != b.id]
@@ -350,6 +352,10 @@ def r3(ctx: Ctx) -> None:
             ctx.ob("C15.R3", f, f"{role}: per-entry {key} source", defs[0] if defs else b, ok and bool(defs),
                    ("stamped with the committing snapshot" if role == "ADDED" else "preserved from the DataFile (history is not falsified)"),
                    text=f"{role}:{key}")
+    _r3_reader(ctx, f, len(entry_vars) + 1)
+
+
+def _r3_reader(ctx: Ctx, f: FunctionInfo, n_vars: int) -> None:
     rm = ctx.fn("file_manager.FileManager.read_manifest_file")
     ctors = [n for n in ctx.cfg(rm).calls() if n.callee and n.callee.kind == "ctor" and n.callee.cls and n.callee.cls.name == "DataFile"]
     avro = ctors[0] if ctors else None
@@ -359,8 +365,50 @@ def r3(ctx: Ctx) -> None:
     # the record written carries those two variables
     dicts = [d for d in walk_all(ctx, f) if isinstance(d, ast.Dict)]
     rec = [d for d in dicts if any(isinstance(k, ast.Constant) and k.value == "snapshot_id" for k in d.keys)]
-    ok = bool(rec) and len(entry_vars) == 2
+    ok = bool(rec) and n_vars == 3
     ctx.ob("C15.R3", f, "the entry record stores the per-entry values", None, ok, "'snapshot_id': entry_snapshot_id, 'sequence_number': entry_sequence_number")
+
+
+def _r3_rows(ctx: Ctx, f: FunctionInfo) -> None:
+    """Row form of the entry table: the record's status / snapshot_id / sequence_number are bound from tuples
+    `(..., ENTRY_STATUS_<X>, <sid>, <seq>)`; each tuple display is judged by the status constant it carries."""
+    g = ctx.cfg(f)
+    nodes = walk_all(ctx, f)
+    recs = [d for d in nodes if isinstance(d, ast.Dict) and any(isinstance(k, ast.Constant) and k.value == "snapshot_id" for k in d.keys)]
+    var: Dict[str, str] = {}
+    if recs:
+        for k, v in zip(recs[0].keys, recs[0].values):
+            if isinstance(k, ast.Constant) and k.value in ("status", "snapshot_id", "sequence_number") and isinstance(v, ast.Name):
+                var[str(k.value)] = v.id
+    binders = [t for x in nodes for t in ([x.target] if isinstance(x, (ast.comprehension, ast.For)) else [])
+               if isinstance(t, ast.Tuple) and set(var.values()) <= {e.id for e in t.elts if isinstance(e, ast.Name)}]
+    if len(var) != 3 or not binders:
+        raise AnalysisError("status branch vanished from create_manifest_file")
+    tgt = binders[0]
+    idx = {k: next(i for i, e in enumerate(tgt.elts) if isinstance(e, ast.Name) and e.id == v) for k, v in var.items()}
+    rows = [t for t in nodes if isinstance(t, ast.Tuple) and isinstance(t.ctx, ast.Load) and len(t.elts) == len(tgt.elts)
+            and (dotted(t.elts[idx["status"]]) or "").startswith("ENTRY_STATUS_")]
+    roles = {(dotted(t.elts[idx["status"]]) or "").replace("ENTRY_STATUS_", "") for t in rows}
+    if not {"ADDED", "EXISTING"} <= roles:
+        raise AnalysisError("entry rows for ADDED / EXISTING not found in create_manifest_file")
+    pnames = {p.name for p in f.params}
+    for t in rows:
+        role = (dotted(t.elts[idx["status"]]) or "").replace("ENTRY_STATUS_", "")
+        host = next((n for n in g.nodes if n.ast is not None and n.kind in ("stmt", "call", "return", "branch")
+                     and any(x is t for x in ast.walk(n.ast))), None)
+        for key, exist_src in (("snapshot_id", "added_snapshot_id"), ("sequence_number", "sequence_number")):
+            v = t.elts[idx[key]]
+            if role == "ADDED":
+                org = ctx.slicer(f).origins(v, host.id) if host is not None else {"params": set(), "exprs": []}
+                ok = bool(org["params"] & {p for p in pnames if key.split("_")[0] in p}) and not any(
+                    isinstance(x, ast.Attribute) and x.attr in ("added_snapshot_id",) for e in list(org["exprs"]) + [v] for x in ast.walk(e))
+                ok = ok and not isinstance(v, ast.Attribute)
+            else:
+                ok = isinstance(v, ast.Attribute) and v.attr == exist_src and isinstance(v.value, ast.Name) and v.value.id not in ("self",) \
+                    and isinstance(t.elts[0], ast.Name) and v.value.id == t.elts[0].id
+            ctx.ob("C15.R3", f, f"{role}: per-entry {key} source", host, ok,
+                   ("stamped with the committing snapshot" if role == "ADDED" else "preserved from the DataFile (history is not falsified)"),
+                   text=f"{role}:{key}")
 
 
 def r4(ctx: Ctx) -> None:
@@ -451,9 +499,35 @@ def r6(ctx: Ctx) -> None:
     eo = ctx.slicer(f).origins(ep[0].ast.value, ep[0].id) if ep else {"names": set(), "params": set()}  # type: ignore[union-attr]
     ok = bool(ep) and (prevp in eo["names"]) and any(n.endswith("metadata_path") for n in eo["names"])
     ctx.ob("C15.R6", f, "entry path = metadata dir + superseded file", ep[0] if ep else None, ok, "")
-    logv = {norm_text(n.value) for n in ast.walk(f.node) if isinstance(n, ast.Assign) and any(isinstance(t, ast.Attribute) and t.attr == "metadata_log" for t in n.targets)}
+    logv = {nm for n in ast.walk(f.node) if isinstance(n, ast.Assign) and any(isinstance(t, ast.Attribute) and t.attr == "metadata_log" for t in n.targets)
+            for nm in names_in(n.value)}
     slices = [n for n in ast.walk(f.node) if isinstance(n, ast.Subscript) and isinstance(n.slice, ast.Slice) and norm_text(n.value) in logv]
-    ok = bool(slices) and all(isinstance(s.slice.lower, ast.UnaryOp) and isinstance(s.slice.lower.op, ast.USub) and s.slice.upper is None for s in slices)
+
+    def _tail(sx: ast.Subscript) -> Optional[ast.AST]:
+        """the count kept by a suffix slice: L[-n:] -> n ; L[k:] with k = len(L) - n -> n ; anything else is not a 'newest n' trim"""
+        sl_ = sx.slice
+        if not isinstance(sl_, ast.Slice) or sl_.upper is not None or sl_.step is not None or sl_.lower is None:
+            return None
+        if isinstance(sl_.lower, ast.UnaryOp) and isinstance(sl_.lower.op, ast.USub):
+            return sl_.lower.operand
+        host = next((n for n in g.nodes if n.ast is not None and any(x is sx for x in ast.walk(n.ast))), None)
+        if host is None:
+            return None
+        kept = []
+        for src, _a in resolve_value(ctx, f, sl_.lower, host.id):
+            parts = [src.body, src.orelse] if isinstance(src, ast.IfExp) else [src]
+            for p_ in parts:
+                if isinstance(p_, ast.Constant) and p_.value == 0:
+                    continue  # L[0:] keeps everything
+                if isinstance(p_, ast.BinOp) and isinstance(p_.op, ast.Sub) and isinstance(p_.left, ast.Call) and dotted(p_.left.func) == "len" \
+                        and p_.left.args and norm_text(p_.left.args[0]) == norm_text(sx.value):
+                    kept.append(p_.right)
+                else:
+                    return None
+        return kept[0] if len(kept) == 1 else None
+
+    tails = {id(sx): _tail(sx) for sx in slices}
+    ok = bool(slices) and all(tails[id(sx)] is not None for sx in slices)
     ctx.ob("C15.R6", f, "trim keeps the newest entries (log[-max:])", None, ok,
            f"slices: {[norm_text(s) for s in slices]}")
     # the bound is the one configured in the version being WRITTEN (new_metadata.properties), not in the superseded one
@@ -463,7 +537,7 @@ def r6(ctx: Ctx) -> None:
     fsl = ctx.slicer(f)
     for sn in [n for n in g.nodes if n.kind == "stmt" and n.ast is not None and any(x in slices for x in ast.walk(n.ast))]:
         for sx in [x for x in ast.walk(sn.ast) if x in slices]:
-            bound = sx.slice.lower.operand if isinstance(sx.slice.lower, ast.UnaryOp) else (sx.slice.lower or sx.slice.upper)  # type: ignore[union-attr]
+            bound = tails.get(id(sx)) or (sx.slice.lower or sx.slice.upper)  # type: ignore[union-attr]
             if bound is None:
                 continue
             org = fsl.origins(bound, sn.id)
